@@ -547,14 +547,20 @@ def _contract_expr(text, shared, uf):
 
 
 def discharge(assumptions, goal, timeout_ms=10000):
+    from vlib import smt
+
     s = z3.Solver()
-    s.set("timeout", timeout_ms)
     for a in assumptions:
         s.add(a)
     s.add(z3.Not(goal))
-    r = s.check()
-    if r == z3.unsat:
+    r, model = smt.z3_check(s, timeout_ms / 1000.0, model=True)
+    if r == "unknown":
+        for opts in ([], ["--enum-inst"]):
+            r, model = smt.cvc5_check(s, 3 * timeout_ms / 1000.0, opts)
+            if r != "unknown":
+                break
+    if r == "unsat":
         return "proved", None
-    if r == z3.sat:
-        return "refuted", s.model()
+    if r == "sat":
+        return "refuted", model
     return "unknown", None
